@@ -38,7 +38,7 @@ CHECKS = {
  "C14": dict(
    technique="TLA+ model XtCli (format resolution) model-checked with TLC; every argument vector replayed on the real binaries and stdout compared with the in-process library result for the resolved format",
    text="For every argument vector of up to 3 (thorough: 4) tokens over a vocabulary of -f forms, extension spellings (letter case, multi-dot, hidden file, none, misleading), '-' and targets, XtCli predicts the source selection of each input (-f, then extension, then detection) and that stdin is read at most once; the real binaries' stdout must equal the library's output for that selection on the same bytes.",
-   note="FIFO operands are not yet in the vocabulary; regular files are memory-mapped (slice), standard input is a reader.",
+   note="Regular files (also empty ones) are memory-mapped (slice); standard input is a reader, also when redirected from a regular file; a FIFO operand is a reader - all three are in the vocabulary.",
    design_ref="DESIGN.md 4.8, 6 (C14)"),
  "C04": dict(
    technique="TLC-enumerated token sequences (XtTokens) plus adversarial and mutated inputs executed in crash-isolated workers and through both binaries; every recorded call validated by TLC against the totality contract XtTotal",
@@ -53,7 +53,7 @@ CHECKS = {
    design_ref="DESIGN.md 4.7, 6 (C18)"),
  "C07": dict(
    technique="TLA+ model XtEncoding of the re-encoder model-checked with TLC over all unit-class sequences and read schedules; reference decodings replayed on the real encoder; encoded YAML runs validated by TLC against XtObs",
-   text="TLC checks that the model of Utf16Decoder/Utf32Decoder/Utf8Encoder::read delivers exactly the UTF-8 bytes of the well-formed prefix whatever the read sizes, reports every ill-formed class as an error and detects the encoding of any stream starting with ASCII or a BOM; each unit-class sequence is replayed with concrete boundary code units on the real encoder under many read sizes and source chunkings; YAML texts in the eight encodings must translate exactly like the UTF-8 text from slices and readers.",
+   text="TLC checks that the model of Utf16Decoder/Utf32Decoder/Utf8Encoder::read delivers exactly the UTF-8 bytes of the well-formed prefix whatever the read sizes, reports every ill-formed class as an error and detects the encoding of any stream starting with ASCII or a BOM; each unit-class sequence is replayed with concrete boundary code units on the real encoder under many read sizes and source chunkings; YAML texts in the eight encodings - generated documents and every sequence of up to 2 (thorough: 3) tokens of the YAML alphabet - must translate exactly like the UTF-8 text from slices and readers.",
    note="Unit sequences up to 4 units are exhaustive by class; concrete code units are class edges (quick) or all BMP scalars and surrogate pairs (thorough).",
    design_ref="DESIGN.md 4.5, 6 (C07)"),
  "C11": dict(
@@ -67,9 +67,9 @@ CHECKS = {
    note="Documents are sampled from the generators; the TOML side conditions rely on Python's json and PyYAML composer.",
    design_ref="DESIGN.md 4.2, 6 (C10)"),
  "C02": dict(
-   technique="TLA+ contract XtObs; recorded executions (slice vs reader under many read schedules) validated by TLC against Trace_XtObs",
-   text="Every recorded translate call (generated streams and mutated inputs, 4 source selections + detection, 4 targets, slice and reader under single-byte, random, document-aligned and mid-token read schedules) is validated by TLC against the XtObs contract: runs that share bytes and formats must end with the same verdict, byte-identical output on success and prefix-comparable output on failure.",
-   note="Trusts TLC, the harness reader/writer and its byte-level comparison (cmp field). Inputs are generated/mutated, not exhaustive; three recorded deviations are excused for their pinned input classes (KNOWN_FINDINGS.txt).",
+   technique="TLA+ contract XtObs; recorded executions (slice vs reader under many read schedules; TLC-enumerated token sequences) validated by TLC against Trace_XtObs",
+   text="Every recorded translate call (every token sequence of up to 2 (thorough: 3) tokens over each format's alphabet enumerated by TLC, generated streams and mutated inputs, 4 source selections + detection, 4 targets, slice and reader under single-byte, random, document-aligned and mid-token read schedules) is validated by TLC against the XtObs contract: runs that share bytes and formats must end with the same verdict, byte-identical output on success and prefix-comparable output on failure.",
+   note="Trusts TLC, the harness reader/writer and its byte-level comparison (cmp field). Exhaustive only for the token sequences up to the bound, otherwise generated/mutated; three recorded deviations are excused for their pinned input classes (KNOWN_FINDINGS.txt).",
    design_ref="DESIGN.md 4.3, 6 (C02)"),
  "C03": dict(
    technique="TLA+ contract XtObs; recorded call histories validated by TLC against Trace_XtObs",
@@ -94,7 +94,7 @@ CHECKS = {
    design_ref="DESIGN.md 4.3, 6 (C12)"),
  "C09": dict(
    technique="TLA+ specs XtInput/XtDetect model-checked with TLC; every path over the TLC-exported handle relation replayed on the real input handle; hook traces of real detection runs validated by TLC",
-   text="Detection runs of the real code (hook events for every trial and every capture-reader operation, the harness reader's log, the answer) on generated, mutated and truncated inputs are validated by TLC against XtDetect/XtInput with the handle invariants as INVARIANT, and translate(None) is compared with translate(Some(answer)) in verdict, bytes and error text. TLC checks the capture/replay invariants of the rewindable input handle on the complete reachable state graph (all stream lengths up to MaxN, all fault offsets, all short-read patterns); every path of bounded length over the exported transition relation is stepped on the real Handle with result and projection compared after each step.",
+   text="Detection runs of the real code (hook events for every trial and every capture-reader operation, the harness reader's log, the answer) on pinned, generated, mutated and truncated inputs, on every token sequence of up to 2 tokens over each format's alphabet (enumerated by TLC) and on TOML documents of 1-2 MiB are validated by TLC against XtDetect/XtInput with the handle invariants as INVARIANT, and translate(None) is compared with translate(Some(answer)) in verdict, bytes and error text. TLC checks the capture/replay invariants of the rewindable input handle on the complete reachable state graph (all stream lengths up to MaxN, all fault offsets, all short-read patterns); every path of bounded length over the exported transition relation is stepped on the real Handle with result and projection compared after each step.",
    note="Trusts TLC, the hook wrappers in src/verif.rs (thin, no logic) and the harness reader. Bounded: stream length <= MaxN, path length <= 6 (quick) / 7 (thorough).",
    design_ref="DESIGN.md 4.1, 6 (C09)"),
 }
